@@ -202,6 +202,20 @@ class C04:
                 add("int", route, en, boundary_ints())
                 add("float", route, en, boundary_floats())
                 add("bool", route, en, bool_tokens())
+        # every byte 1..255 before, after and inside valid numerals (control characters, high bytes, ...)
+        base_i = [t for t in ints if conv_int(t)[0] == "ok" and 1 <= len(t) <= 3]
+        base_f = [t for t in flts if conv_float(t)[0] == "ok" and 1 <= len(t) <= 3][::3]
+        for kind, base in (("int", base_i), ("float", base_f)):
+            toks = []
+            for t in base:
+                for b in range(1, 256):
+                    ch = chr(b)
+                    toks.append(t + ch)
+                    toks.append(ch + t)
+                    if len(t) > 1:
+                        toks.append(t[:1] + ch + t[1:])
+            for route in ("parse", "setmulti", "setopt"):
+                add(kind, route, 0, toks)
         ints5 = ["".join(t) for t in itertools.product(INT_ALPHA, repeat=L + 1)]
         flts5 = ["".join(t) for t in itertools.product(FLT_ALPHA, repeat=L + 1)]
         add("int", "parse", 0, ints5)
